@@ -17,6 +17,8 @@ deriving Inhabited
 
 def R.emit (r : R) (o : Out) : R := { r with out := r.out ++ [o] }
 
+def R.emits (r : R) (os : List Out) : R := { r with out := r.out ++ os }
+
 def R.getStrm (r : R) (uid : Nat) : Option Strm := r.s.strms.find? (·.uid == uid)
 
 def R.updStrm (r : R) (uid : Nat) (f : Strm → Strm) : R :=
@@ -246,7 +248,30 @@ def encodeFields (enc : Hpack.EncState) (fields : List ((Bytes × Bytes) × Bool
 def responseFields (resp : Resp) : List ((Bytes × Bytes) × Bool) :=
   ((Gen.s_StringStatus, statusBytes resp.status), true) :: resp.view.map fun (k, v) => ((toLowerGo k, v), false)
 
-/-- `fasthttpResponseHeaders` + the HEADERS frame of `finishRequest` -/
+/-- the CONTINUATION loop of `writeHeaderBlock`: what is left of the block, in pieces of at most `max` octets -/
+def cutRest (max : Nat) : Nat → Bytes → List Bytes
+  | 0, _ => []
+  | fuel + 1, b => if b.isEmpty then [] else b.take max :: cutRest max fuel (b.drop max)
+
+/-- `writeHeaderBlock`: the fragments a header block is written in — the first `max` octets (the whole block when it is
+no longer), then the rest in pieces of at most `max` -/
+def cutBlock (max : Nat) (block : Bytes) : List Bytes :=
+  block.take max :: cutRest max block.length (block.drop max)
+
+/-- the CONTINUATION frames for the fragments after the first: END_HEADERS, and with it the decoded field list as the
+harness prints it, on the last one -/
+def contOuts (sid : Nat) (fs : List (Bytes × Bytes)) (err : Bool) : List Bytes → List Out
+  | [] => []
+  | f :: rest => .cont sid rest.isEmpty f.length (if rest.isEmpty then fs else []) (rest.isEmpty && err) :: contOuts sid fs err rest
+
+/-- the frames of one header block: HEADERS with the first fragment (END_STREAM stays on it), END_HEADERS on it only
+when there is no other fragment, then the CONTINUATION frames -/
+def blockOuts (sid : Nat) (es : Bool) (fs : List (Bytes × Bytes)) (err : Bool) : List Bytes → List Out
+  | [] => []
+  | f :: rest => .headers sid es rest.isEmpty f.length (if rest.isEmpty then fs else []) (rest.isEmpty && err) :: contOuts sid fs err rest
+
+/-- `fasthttpResponseHeaders` + the HEADERS frame of `finishRequest`, as the write loop writes it (`writeHeaderBlock`
+with `maxDataFrameSize`): HEADERS + CONTINUATION… when the block is longer than 16384 octets -/
 def responseHeaders (r : R) (st : Strm) (resp : Resp) (hasBody : Bool) : R :=
   let x := encodeFields r.s.enc (responseFields resp)
   let block := x.2
@@ -254,9 +279,11 @@ def responseHeaders (r : R) (st : Strm) (resp : Resp) (hasBody : Bool) : R :=
   -- what the peer's reference decoder makes of the block
   match decodeAll (block.length + 1) r.s.peerDec true 0 block [] with
   | some (dec, fs) =>
-    ({ r with s := { r.s with peerDec := dec } } : R).emit (.headers st.id (!hasBody) true block.length (fs.map fun (f : Hpack.Field) => (f.name, f.value)))
+    ({ r with s := { r.s with peerDec := dec } } : R).emits
+      (blockOuts st.id (!hasBody) (fs.map fun (f : Hpack.Field) => (f.name, f.value)) false (cutBlock Gen.c_maxDataFrameSize block))
   | none =>
-    ({ r with s := { r.s with peerDecBroken := true, undefined := true } } : R).emit (.headers st.id (!hasBody) true block.length [] true)
+    ({ r with s := { r.s with peerDecBroken := true, undefined := true } } : R).emits
+      (blockOuts st.id (!hasBody) [] true (cutBlock Gen.c_maxDataFrameSize block))
 
 /-- `finishRequest`: returns (r, finished) -/
 def finishRequest (r : R) (uid : Nat) (resp : Resp) : R × Bool :=
